@@ -77,7 +77,7 @@ ASSUMPTIONS = [
     "parsed without a base",
 ]
 TRUSTED = ["harness/c03.py, harness/graphgen.py generators; harness/isoutil.py isomorphism oracle",
-           "harness/c03tables.py copies the writers' replace chains from rdflib's source into lean/RV/C03/Tables.lean",
+           "harness/c03tables.py probes the writers' per-character behaviour into lean/RV/C03/Tables.lean",
            "lean/RV/C03/Drive.lean line protocol",
            "RDF/XML, pretty-xml, JSON-LD and all text layout: no Lean model; tied by the round trip on the implementation"]
 
